@@ -8,23 +8,31 @@ What is translated mechanically (function by function, expression by expression)
     special.S2_prime, S3_prime (call sites must pass z = n/2), S2_tilde
     adim.non_singlet_LO, singlet_LO, non_singlet_NLO, singlet_NLO
     c1dvcs.c1_F2, c1_FL, c1_F1, c1_V
-What is hand-written here (HEAD / TAIL text below; tied by the correspondence only):
-    pochhammer's loop, adim.block's zero pattern, c1dvcs.shift1 and c1dvcs.C1 (string dispatch +
-    einsum with c0 = (1,0,1,1)).
+    adim.block, c1dvcs.shift1, c1dvcs.C1   — by SYMBOLIC EVALUATION of their bodies (class Sym below): the string
+        dispatch on process_class / m.scheme is executed for each of the 3 x 3 combinations (DIS, DVCS, any other
+        string) x (msbar, csbar, any other string), following if / elif / else, early returns, `raise`, local
+        variables and calls among these functions; the numpy plumbing (np.array, atleast_3d, transpose, zeros_like,
+        ones_like, block, stack, concatenate, einsum, indexing, elementwise arithmetic) is evaluated on symbolic arrays
+        whose entries are Lean expressions, for ONE point of the array of moments (the axis of moments is tracked as
+        the axis 'K').  What each branch computes ends up in the template, whatever the shape of the control flow.
+What is hand-written here (HEAD text below): cpow, pochhammer's loop, the record types.
 
 The model is at ONE complex moment n.  Calls of the primitive special functions are not
 translated: each distinct call `F(arg)` becomes a field of a parameter structure
 (SF: values at Mellin moment n;  SJ: values at conformal moment j) that the harness fills from
-gepard.special at the same n.  The table CALLS below fixes which call is which field; a call that
-is not in the table is REJECTED (the translator raises rather than guesses).
+gepard.special at the same n.  The tables CALLS_N / CALLS_J fix which call is which field; the argument is matched
+as an AFFINE FORM a*n + b with exact rational a, b (so `n/2`, `0.5*n`, `(1+n)/2`, `(n+1)/2`, a local `nh = n/2` are
+the same call); a call that is not in the table is REJECTED (the translator raises rather than guesses).
 
 Typing: every Python sub-expression is inferred real (K) or complex (Cx K); a real operand of a
 mixed operation is promoted with `r` (= Cx.ofReal), which is what Python/numpy do (float → complex
 before a complex operation).  `z ** k` for a literal integer k is `cpow z k` (k<0: `r 1 / cpow z |k|`).
 """
 import ast
+import itertools
 import os
 import sys
+from fractions import Fraction
 
 HERE = os.path.dirname(os.path.abspath(__file__))
 VERIF = os.path.dirname(HERE)
@@ -37,26 +45,69 @@ class Reject(Exception):
     pass
 
 
-# primitive special-function calls → (field, type).  Key: (function, canonical argument text)
+F = Fraction
+# primitive special-function calls → (field, type).  Key: (function, (a, b)) for the argument a*n + b
 CALLS_N = {
-    ('S1', 'n'): ('P.S1', 'C'),
-    ('S2', 'n'): ('P.S2', 'C'),
-    ('S2', 'n / 2'): ('P.S2h', 'C'),
-    ('S3', 'n / 2'): ('P.S3h', 'C'),
-    ('S2', 'n / 2 - 1 / 2'): ('P.S2hm', 'C'),
-    ('S3', 'n / 2 - 1 / 2'): ('P.S3hm', 'C'),
-    ('psi', 'n / 2'): ('P.psih', 'C'),
-    ('psi', '(1 + n) / 2'): ('P.psih1', 'C'),
-    ('psi', '(n + 1) / 2'): ('P.psih1', 'C'),
-    ('MellinF2', 'n'): ('P.MF2', 'C'),
-    ('zeta', '2'): ('P.z2', 'R'),
-    ('zeta', '3'): ('P.z3', 'R'),
+    ('S1', (F(1), F(0))): ('P.S1', 'C'),
+    ('S2', (F(1), F(0))): ('P.S2', 'C'),
+    ('S2', (F(1, 2), F(0))): ('P.S2h', 'C'),
+    ('S3', (F(1, 2), F(0))): ('P.S3h', 'C'),
+    ('S2', (F(1, 2), F(-1, 2))): ('P.S2hm', 'C'),
+    ('S3', (F(1, 2), F(-1, 2))): ('P.S3hm', 'C'),
+    ('psi', (F(1, 2), F(0))): ('P.psih', 'C'),
+    ('psi', (F(1, 2), F(1, 2))): ('P.psih1', 'C'),
+    ('MellinF2', (F(1), F(0))): ('P.MF2', 'C'),
+    ('zeta', (F(0), F(2))): ('P.z2', 'R'),
+    ('zeta', (F(0), F(3))): ('P.z3', 'R'),
 }
+# … a*j + b
 CALLS_J = {
-    ('S1', 'j'): ('J.S1j', 'C'),
-    ('S1', 'j + 1'): ('J.S1j1', 'C'),
-    ('S1', 'j + 2'): ('J.S1j2', 'C'),
+    ('S1', (F(1), F(0))): ('J.S1j', 'C'),
+    ('S1', (F(1), F(1))): ('J.S1j1', 'C'),
+    ('S1', (F(1), F(2))): ('J.S1j2', 'C'),
+    ('S1', (F(1), F(3, 2))): ('J.S1j32', 'C'),
 }
+
+
+def affine(node, sym, var):
+    """(a, b), exact rationals, with  node == a*var + b  as an expression of Python numbers; None if it is not of
+    that form.  `sym`: local / formal names that stand for such forms."""
+    if isinstance(node, ast.Constant):
+        v = node.value
+        if isinstance(v, bool) or not isinstance(v, (int, float)) or v != v or v in (float('inf'), float('-inf')):
+            return None
+        return F(0), F(v)
+    if isinstance(node, ast.Name):
+        if node.id in sym:
+            return sym[node.id]
+        if node.id == var:
+            return F(1), F(0)
+        return None
+    if isinstance(node, ast.UnaryOp) and isinstance(node.op, (ast.USub, ast.UAdd)):
+        x = affine(node.operand, sym, var)
+        if x is None:
+            return None
+        return (-x[0], -x[1]) if isinstance(node.op, ast.USub) else x
+    if isinstance(node, ast.BinOp):
+        x, y = affine(node.left, sym, var), affine(node.right, sym, var)
+        if x is None or y is None:
+            return None
+        if isinstance(node.op, ast.Add):
+            return x[0] + y[0], x[1] + y[1]
+        if isinstance(node.op, ast.Sub):
+            return x[0] - y[0], x[1] - y[1]
+        if isinstance(node.op, ast.Mult):
+            if x[0] == 0:
+                return x[1] * y[0], x[1] * y[1]
+            if y[0] == 0:
+                return y[1] * x[0], y[1] * x[1]
+            return None
+        if isinstance(node.op, ast.Div):
+            if y[0] != 0 or y[1] == 0:
+                return None
+            return x[0] / y[1], x[1] / y[1]
+    return None
+
 
 # functions of the model that may be called from translated code:
 #   name -> (lean name, [param types], return type)
@@ -82,23 +133,16 @@ def num(v):
 class Fn:
     """translator for one function body"""
 
-    def __init__(self, env, calls, sym=None, kw='P'):
+    def __init__(self, env, calls, sym=None, kw='P', var='n'):
         self.env = dict(env)          # python name -> (lean text, type)
         self.calls = calls
-        self.sym = sym or {}          # python name -> canonical source text it stands for (for call keys)
+        self.sym = dict(sym or {})    # python name -> affine form (a, b) in `var` it stands for (for call keys)
+        self.var = var                # the moment variable the call tables refer to
         self.kw = kw
 
-    # ---- canonical text of a call argument, with formal parameters substituted
+    # ---- affine form of a call argument, with formal parameters / locals substituted
     def canon(self, node):
-        sym = self.sym
-
-        class Sub(ast.NodeTransformer):
-            def visit_Name(self, n):
-                if n.id in sym:
-                    return ast.parse(sym[n.id], mode='eval').body
-                return n
-        import copy
-        return ast.unparse(Sub().visit(copy.deepcopy(node)))
+        return affine(node, self.sym, self.var)
 
     def promote(self, t):
         txt, ty = t
@@ -163,14 +207,14 @@ class Fn:
         f = e.func.id
         if f in ('S2_prime', 'S3_prime'):
             # special.S2_prime(z, prty): call sites must pass z = n/2
-            if len(e.args) != 2 or self.canon(e.args[0]) != 'n / 2':
+            if len(e.args) != 2 or self.var != 'n' or self.canon(e.args[0]) != (F(1, 2), F(0)):
                 raise Reject('%s call site is not (n/2, prty) (line %d)' % (f, e.lineno))
             p = self.expr(e.args[1])
             if p[1] != 'R':
                 raise Reject('prty not real')
             return '%s_half %s P' % (f, paren(p[0])), 'C'
         if f == 'S2_tilde':
-            if len(e.args) != 2 or self.canon(e.args[0]) != 'n':
+            if len(e.args) != 2 or self.var != 'n' or self.canon(e.args[0]) != (F(1), F(0)):
                 raise Reject('S2_tilde call site is not (n, prty) (line %d)' % e.lineno)
             p = self.expr(e.args[1])
             return 'S2_tilde n %s P' % paren(p[0]), 'C'
@@ -186,15 +230,19 @@ class Fn:
             a = [self.expr(x) for x in e.args]
             if a[0][1] != 'C' or a[1][1] != 'R' or a[2][1] != 'R':
                 raise Reject('non_singlet_NLO argument types')
+            if self.var != 'n' or self.canon(e.args[0]) != (F(1), F(0)):
+                raise Reject('non_singlet_NLO is not called at the moment n its special-function values belong to (line %d)' % e.lineno)
             return 'non_singlet_NLO %s %s %s P' % tuple(paren(x[0]) for x in a), 'C'
         if f in ('c1_F2', 'c1_FL'):
             a = [self.expr(x) for x in e.args]
             if len(a) != 2 or a[0][1] != 'C' or a[1][1] != 'R':
                 raise Reject('%s argument types' % f)
+            if self.var != 'n' or self.canon(e.args[0]) != (F(1), F(0)):
+                raise Reject('%s is not called at the moment n its special-function values belong to (line %d)' % (f, e.lineno))
             return '%s %s %s P' % (f, paren(a[0][0]), paren(a[1][0])), 'V'
         if len(e.args) == 1:
             key = (f, self.canon(e.args[0]))
-            if key in self.calls:
+            if key[1] is not None and key in self.calls:
                 return self.calls[key]
         raise Reject('call %s is not in the table of special-function parameters (line %d)' % (
             ast.unparse(e), e.lineno))
@@ -244,13 +292,29 @@ def translate_function(fn, params, tr, ret_kind, lean_name, lean_sig, ret_ty, fn
              'def %s %s : %s :=' % (lean_name, lean_sig, ret_ty)]
     stmts = body_stmts(fn)
     for st in stmts[:-1]:
+        if isinstance(st, ast.AugAssign) and isinstance(st.target, ast.Name):      # x += e  is  x = x + e
+            st = ast.copy_location(ast.Assign(targets=[ast.Name(id=st.target.id, ctx=ast.Store())], value=ast.copy_location(
+                ast.BinOp(left=ast.Name(id=st.target.id, ctx=ast.Load()), op=st.op, right=st.value), st)), st)
         if not (isinstance(st, ast.Assign) and len(st.targets) == 1 and isinstance(st.targets[0], ast.Name)):
             raise Reject('%s: statement at line %d is not a simple assignment' % (fn.name, st.lineno))
         name = st.targets[0].id
-        t, ty = tr.expr(st.value)
+        form = tr.canon(st.value)
+        try:
+            t, ty = tr.expr(st.value)
+        except Reject:
+            # zm = z - 1/2 where z itself has no value in the model (only the special functions AT it have):
+            # the name stands for that argument in later calls, and for nothing else
+            if form is None or form[0] == 0:
+                raise
+            tr.env.pop(name, None)
+            tr.sym[name] = form
+            continue
         lty = {'R': 'K', 'C': 'C', 'V': 'V4'}[ty]
         lines.append('  let %s : %s := %s' % (name, lty, t))
         tr.env[name] = (name, ty)
+        tr.sym.pop(name, None)
+        if form is not None and ty == 'C':
+            tr.sym[name] = form       # e.g. nh = n/2: a later S2_prime(nh, prty) is the call at n/2
     last = stmts[-1]
     if not isinstance(last, ast.Return):
         raise Reject('%s: last statement is not return' % fn.name)
@@ -263,9 +327,14 @@ def translate_function(fn, params, tr, ret_kind, lean_name, lean_sig, ret_ty, fn
         ok = (isinstance(v, ast.Call) and ast.unparse(v.func) == 'np.array' and len(v.args) == 1 and
               isinstance(v.args[0], ast.List) and len(v.args[0].elts) == 2 and
               all(isinstance(r, ast.List) and len(r.elts) == 2 for r in v.args[0].elts))
-        if not ok:
-            raise Reject('%s: return is not np.array([[a,b],[c,d]])' % fn.name)
-        el = [tr.promote(tr.expr(x)) for r in v.args[0].elts for x in r.elts]
+        if ok:
+            el = [tr.promote(tr.expr(x)) for r in v.args[0].elts for x in r.elts]
+        else:
+            # any other way of building the array of shape (2, 2, moments): evaluated symbolically
+            res = eval_return(tr, v)
+            if res.shape != (2, 2, 'K'):
+                raise Reject('%s: returns an array of shape %r, expected (2, 2, moments)' % (fn.name, res.shape))
+            el = [tr.promote(res.ent[(i, k, 0)]) for i in range(2) for k in range(2)]
         lines.append('  { qq := %s, qg := %s, gq := %s, gg := %s }' % tuple(el))
     elif ret_kind == 'V4':
         # np.array((Q, G, NSP, NSM)).transpose()
@@ -273,9 +342,13 @@ def translate_function(fn, params, tr, ret_kind, lean_name, lean_sig, ret_ty, fn
               not v.args and isinstance(v.func.value, ast.Call) and ast.unparse(v.func.value.func) == 'np.array' and
               len(v.func.value.args) == 1 and isinstance(v.func.value.args[0], ast.Tuple) and
               len(v.func.value.args[0].elts) == 4)
-        if not ok:
-            raise Reject('%s: return is not np.array((Q, G, NSP, NSM)).transpose()' % fn.name)
-        el = [tr.promote(tr.expr(x)) for x in v.func.value.args[0].elts]
+        if ok:
+            el = [tr.promote(tr.expr(x)) for x in v.func.value.args[0].elts]
+        else:
+            res = eval_return(tr, v)
+            if res.shape != ('K', 4):
+                raise Reject('%s: returns an array of shape %r, expected (moments, 4)' % (fn.name, res.shape))
+            el = [tr.promote(res.ent[(0, i)]) for i in range(4)]
         lines.append('  { Q := %s, G := %s, NSP := %s, NSM := %s }' % tuple(el))
     elif ret_kind == 'V4sub':
         # c1_F2(n, nf) - c1_FL(n, nf)
@@ -288,6 +361,522 @@ def translate_function(fn, params, tr, ret_kind, lean_name, lean_sig, ret_ty, fn
     else:
         raise Reject(ret_kind)
     return '\n'.join(lines) + '\n'
+
+
+# ------------------------------------------------------------------------------------------------
+# symbolic evaluation of the dispatch / array-plumbing functions: adim.block, c1dvcs.shift1, c1dvcs.C1
+# ------------------------------------------------------------------------------------------------
+
+class Raised(Exception):
+    """the evaluated Python code executes `raise`"""
+
+
+class Arr:
+    """a numpy array at ONE point of the array of moments.  shape: tuple of axis sizes, the axis of moments is 'K';
+    ent: {index tuple (0 at the 'K' axis) -> (lean text, 'R' | 'C')}.  A complex scalar has shape ('K',) (it is one
+    entry of an array over the moments), a real scalar (nf, ln rf2, a literal) has shape ()."""
+
+    def __init__(self, shape, ent):
+        self.shape, self.ent = tuple(shape), ent
+
+    @staticmethod
+    def scalar(txt, ty):
+        return Arr(('K',), {(0,): (txt, ty)}) if ty == 'C' else Arr((), {(): (txt, ty)})
+
+    @staticmethod
+    def keys(shape):
+        return itertools.product(*[range(1 if a == 'K' else a) for a in shape])
+
+    def is_scalar(self):
+        return self.shape in ((), ('K',))
+
+    def complex_(self):
+        return any(ty == 'C' for _, ty in self.ent.values())
+
+    def map(self, f):
+        return Arr(self.shape, {k: f(v) for k, v in self.ent.items()})
+
+    def transpose(self, perm):
+        if sorted(perm) != list(range(len(self.shape))):
+            raise Reject('transpose%r of an array with %d axes' % (tuple(perm), len(self.shape)))
+        return Arr([self.shape[i] for i in perm], {tuple(k[i] for i in perm): v for k, v in self.ent.items()})
+
+    @staticmethod
+    def stack(items, axis=0):
+        """np.stack / np.array of a list: a new axis"""
+        if not items or any(x.shape != items[0].shape for x in items):
+            raise Reject('stacking arrays of different shapes')
+        n = len(items[0].shape)
+        if not -n - 1 <= axis <= n:
+            raise Reject('stack axis')
+        axis %= n + 1
+        shape = items[0].shape[:axis] + (len(items),) + items[0].shape[axis:]
+        return Arr(shape, {k[:axis] + (i,) + k[axis:]: v for i, x in enumerate(items) for k, v in x.ent.items()})
+
+    @staticmethod
+    def concat(items, axis):
+        n = len(items[0].shape)
+        if any(len(x.shape) != n for x in items) or not -n <= axis < n:
+            raise Reject('concatenating arrays of different rank')
+        axis %= n
+        for x in items:
+            if x.shape[axis] == 'K' or x.shape[:axis] + x.shape[axis + 1:] != items[0].shape[:axis] + items[0].shape[axis + 1:]:
+                raise Reject('concatenating arrays whose other axes differ (or along the axis of moments)')
+        ent, off = {}, 0
+        for x in items:
+            for k, v in x.ent.items():
+                ent[k[:axis] + (k[axis] + off,) + k[axis + 1:]] = v
+            off += x.shape[axis]
+        return Arr(items[0].shape[:axis] + (off,) + items[0].shape[axis + 1:], ent)
+
+
+def sc_bin(o, a, b):
+    """scalar `a o b` with Python's promotion real -> complex (same text as Fn.expr)"""
+    if a[1] == 'R' and b[1] == 'R':
+        return '%s %s %s' % (paren(a[0]), o, paren(b[0])), 'R'
+    pa = a[0] if a[1] == 'C' else 'r %s' % paren(a[0])
+    pb = b[0] if b[1] == 'C' else 'r %s' % paren(b[0])
+    return '%s %s %s' % (paren(pa), o, paren(pb)), 'C'
+
+
+def broadcast(o, A, B):
+    """elementwise A o B with numpy's broadcasting (shapes aligned at the right; an axis of size 1 stretches)"""
+    n = max(len(A.shape), len(B.shape))
+    sa, sb = (1,) * (n - len(A.shape)) + A.shape, (1,) * (n - len(B.shape)) + B.shape
+    shape = []
+    for x, y in zip(sa, sb):
+        if x == y or y == 1:
+            shape.append(x)
+        elif x == 1:
+            shape.append(y)
+        else:
+            raise Reject('operands of shapes %r and %r do not broadcast' % (A.shape, B.shape))
+    ent = {}
+    for k in Arr.keys(shape):
+        ka = tuple(0 if sa[i] == 1 else k[i] for i in range(n))[n - len(A.shape):]
+        kb = tuple(0 if sb[i] == 1 else k[i] for i in range(n))[n - len(B.shape):]
+        ent[k] = sc_bin(o, A.ent[ka], B.ent[kb])
+    return Arr(shape, ent)
+
+
+PROCS = ('DIS', 'DVCS')        # the process classes / schemes the model distinguishes; None = any other string
+SCHEMES = ('msbar', 'csbar')
+M2_FIELDS = {(0, 0): 'qq', (0, 1): 'qg', (1, 0): 'gq', (1, 1): 'gg'}
+V4_FIELDS = ['Q', 'G', 'NSP', 'NSM']
+# translated functions callable from the evaluated code: name -> (parameters, defaults, kind)
+SUMMARIES = {
+    'singlet_LO': (['n', 'nf', 'prty'], {'prty': 1}, 'M2'), 'singlet_NLO': (['n', 'nf', 'prty'], {'prty': 1}, 'M2'),
+    'non_singlet_LO': (['n', 'nf', 'prty'], {'prty': 1}, 'C'), 'non_singlet_NLO': (['n', 'nf', 'prty'], {}, 'C'),
+    'c1_F2': (['n', 'nf'], {}, 'V4'), 'c1_FL': (['n', 'nf'], {}, 'V4'), 'c1_F1': (['n', 'nf'], {}, 'V4'),
+    'c1_V': (['j', 'nf'], {}, 'V4J'),
+}
+
+
+class Sym:
+    """Evaluate a function body on symbolic arrays for ONE value of (process_class, m.scheme).
+
+    var: the moment variable of the caller's frame ('n' in adim.block on its own, 'j' in shift1 / C1);
+    p_form: the affine form, in `var`, of the Mellin moment the record P belongs to ((1,0) for block, (1,1) = j+1 for C1)
+    and p_txt the Lean name of that moment; has_J: the record J (S1 around j) is available.
+    funcs: {name: FunctionDef} of adim.block / shift1 (evaluated in place when called)."""
+
+    def __init__(self, var, p_form, p_txt, has_J, consts, funcs, pc=None, sch=None, model=None, pcname=None):
+        self.var, self.p_form, self.p_txt, self.has_J = var, p_form, p_txt, has_J
+        self.consts, self.funcs = consts, funcs
+        self.pc, self.sch, self.model, self.pcname = pc, sch, model, pcname
+        self.depth = 0
+
+    # ------------------------------------------------------------------ frames
+    def frame(self, env, sym):
+        fn = Fn(dict(self.consts), CALLS_J if self.var == 'j' else CALLS_N, sym=sym, var=self.var)
+        return dict(arr=dict(env), fn=fn)
+
+    def bind(self, fr, name, val):
+        fr['arr'][name] = val
+        fr['fn'].env.pop(name, None)
+        fr['fn'].sym.pop(name, None)
+        if val.is_scalar():
+            fr['fn'].env[name] = val.ent[(0,) if val.shape else ()]
+
+    # ------------------------------------------------------------------ statements
+    def run(self, stmts, fr):
+        """None when control falls through, else the returned Arr; `raise` raises Raised"""
+        for st in stmts:
+            if isinstance(st, ast.Expr) and isinstance(st.value, ast.Constant) and isinstance(st.value.value, str):
+                continue
+            if isinstance(st, ast.Pass):
+                continue
+            if isinstance(st, ast.Return):
+                if st.value is None:
+                    raise Reject('bare return (line %d)' % st.lineno)
+                return self.ev(st.value, fr)
+            if isinstance(st, ast.Raise):
+                raise Raised()
+            if isinstance(st, ast.AugAssign) and isinstance(st.target, ast.Name):
+                st = ast.copy_location(ast.Assign(targets=[ast.Name(id=st.target.id, ctx=ast.Store())], value=ast.copy_location(
+                    ast.BinOp(left=ast.Name(id=st.target.id, ctx=ast.Load()), op=st.op, right=st.value), st)), st)
+            if isinstance(st, ast.Assign) and len(st.targets) == 1 and isinstance(st.targets[0], ast.Name) and (
+                    isinstance(st.value, (ast.Compare, ast.BoolOp)) or (
+                        isinstance(st.value, ast.UnaryOp) and isinstance(st.value.op, ast.Not))):
+                # is_dis = process_class == 'DIS': a truth value known for the combination being evaluated
+                name = st.targets[0].id
+                fr.setdefault('bools', {})[name] = self.cond(st.value, fr)
+                fr['arr'].pop(name, None)
+                fr['fn'].env.pop(name, None)
+                fr['fn'].sym.pop(name, None)
+                continue
+            if isinstance(st, ast.Assign) and len(st.targets) == 1 and isinstance(st.targets[0], ast.Name):
+                name = st.targets[0].id
+                fr.get('bools', {}).pop(name, None)
+                form = affine(st.value, fr['fn'].sym, self.var)
+                val = self.ev(st.value, fr)
+                self.bind(fr, name, val)
+                if form is not None and val.shape == ('K',):
+                    fr['fn'].sym[name] = form          # n = j + 1: later calls at n are calls at j+1
+                continue
+            if isinstance(st, ast.If):
+                r = self.run(st.body if self.cond(st.test, fr) else st.orelse, fr)
+                if r is not None:
+                    return r
+                continue
+            raise Reject('statement %s (line %d)' % (type(st).__name__, st.lineno))
+        return None
+
+    def cond(self, t, fr):
+        """the truth value of a test on process_class / m.scheme for the combination being evaluated"""
+        if isinstance(t, ast.BoolOp):
+            stop = isinstance(t.op, ast.Or)
+            for x in t.values:
+                if self.cond(x, fr) == stop:
+                    return stop
+            return not stop
+        if isinstance(t, ast.UnaryOp) and isinstance(t.op, ast.Not):
+            return not self.cond(t.operand, fr)
+        if isinstance(t, ast.Name) and t.id in fr.get('bools', {}):
+            return fr['bools'][t.id]
+        if isinstance(t, ast.Compare) and len(t.ops) == 1:
+            op, a, b = t.ops[0], t.left, t.comparators[0]
+            if isinstance(op, (ast.Eq, ast.NotEq)) and self.subject(b, fr) and not self.subject(a, fr):
+                a, b = b, a
+            who = self.subject(a, fr)
+            if who:
+                val, known = (self.pc, PROCS) if who == 'pc' else (self.sch, SCHEMES)
+                if isinstance(op, (ast.Eq, ast.NotEq)) and isinstance(b, ast.Constant) and isinstance(b.value, str):
+                    lits = [b.value]
+                elif isinstance(op, (ast.In, ast.NotIn)) and isinstance(b, (ast.Tuple, ast.List, ast.Set)) and all(
+                        isinstance(x, ast.Constant) and isinstance(x.value, str) for x in b.elts):
+                    lits = [x.value for x in b.elts]
+                else:
+                    raise Reject('test %s (line %d)' % (ast.unparse(t), t.lineno))
+                for l in lits:
+                    if l not in known:
+                        # "any other string" would no longer be one case
+                        raise Reject('test against %r: the model distinguishes only %r (line %d)' % (l, known, t.lineno))
+                r = val in lits
+                return r if isinstance(op, (ast.Eq, ast.In)) else not r
+        raise Reject('test %s is not a test on the process class / scheme (line %d)' % (ast.unparse(t), t.lineno))
+
+    def subject(self, node, fr):
+        if isinstance(node, ast.Name) and node.id == self.pcname and node.id not in fr['arr']:
+            return 'pc'
+        if isinstance(node, ast.Attribute) and isinstance(node.value, ast.Name) and node.value.id == self.model \
+                and node.attr == 'scheme':
+            return 'sch'
+        return None
+
+    # ------------------------------------------------------------------ expressions
+    def ev(self, e, fr):
+        if isinstance(e, ast.Name):
+            if e.id in fr['arr']:
+                return fr['arr'][e.id]
+            return Arr.scalar(*fr['fn'].expr(e))
+        if isinstance(e, ast.Constant):
+            return Arr.scalar(*fr['fn'].expr(e))
+        if isinstance(e, ast.Attribute):
+            if isinstance(e.value, ast.Name) and e.value.id == self.model and self.model not in fr['arr']:
+                if e.attr in ('rf2', 'nf'):
+                    return Arr.scalar(e.attr, 'R')
+                raise Reject('attribute %s of the model (line %d)' % (e.attr, e.lineno))
+            if e.attr == 'T':
+                x = self.ev(e.value, fr)
+                return x.transpose(list(reversed(range(len(x.shape)))))
+            raise Reject('attribute %s (line %d)' % (ast.unparse(e), e.lineno))
+        if isinstance(e, ast.UnaryOp):
+            x = self.ev(e.operand, fr)
+            if isinstance(e.op, ast.USub):
+                return x.map(lambda v: ('-%s' % paren(v[0]), v[1]))
+            if isinstance(e.op, ast.UAdd):
+                return x
+            raise Reject('unary op (line %d)' % e.lineno)
+        if isinstance(e, ast.BinOp):
+            ops = {ast.Add: '+', ast.Sub: '-', ast.Mult: '*', ast.Div: '/'}
+            if isinstance(e.op, ast.Pow):
+                return Arr.scalar(*fr['fn'].power(e))        # scalar base only (names of scalars are in fn.env)
+            if type(e.op) not in ops:
+                raise Reject('binary op %s (line %d)' % (type(e.op).__name__, e.lineno))
+            return broadcast(ops[type(e.op)], self.ev(e.left, fr), self.ev(e.right, fr))
+        if isinstance(e, ast.Subscript):
+            return self.subscript(e, fr)
+        if isinstance(e, ast.Call):
+            return self.call(e, fr)
+        raise Reject('expression %s (line %d)' % (type(e).__name__, getattr(e, 'lineno', 0)))
+
+    def subscript(self, e, fr):
+        x = self.ev(e.value, fr)
+        idx = list(e.slice.elts) if isinstance(e.slice, ast.Tuple) else [e.slice]
+
+        def newaxis(i):
+            return (isinstance(i, ast.Constant) and i.value is None) or ast.unparse(i) in ('np.newaxis', 'numpy.newaxis')
+        # x[:, None]: a new axis of size 1 at that position (done first, on the positions of the result)
+        if any(newaxis(i) for i in idx):
+            pos = [k for k, i in enumerate(idx) if newaxis(i)]
+            if any(not (isinstance(i, ast.Slice) and i.lower is None and i.upper is None and i.step is None) and not newaxis(i)
+                   for i in idx) or len(idx) - len(pos) > len(x.shape):
+                raise Reject('index %s (line %d)' % (ast.unparse(e.slice), e.lineno))
+            shape, ent = list(x.shape), x.ent
+            for p_ in pos:
+                shape.insert(p_, 1)
+                ent = {k[:p_] + (0,) + k[p_:]: v for k, v in ent.items()}
+            return Arr(shape, ent)
+        if len(idx) > len(x.shape):
+            raise Reject('too many indices (line %d)' % e.lineno)
+        keep, fix = [], {}
+        for ax, size in enumerate(x.shape):
+            i = idx[ax] if ax < len(idx) else None
+            if i is None or (isinstance(i, ast.Slice) and i.lower is None and i.upper is None and i.step is None):
+                keep.append(ax)
+                continue
+            v = i.value if isinstance(i, ast.Constant) else -i.operand.value if (
+                isinstance(i, ast.UnaryOp) and isinstance(i.op, ast.USub) and isinstance(i.operand, ast.Constant)) else None
+            if not isinstance(v, int) or isinstance(v, bool) or size == 'K' or not -size <= v < size:
+                raise Reject('index %s (line %d)' % (ast.unparse(e.slice), e.lineno))
+            fix[ax] = v % size
+        ent = {tuple(k[a] for a in keep): v for k, v in x.ent.items() if all(k[a] == i for a, i in fix.items())}
+        return Arr([x.shape[a] for a in keep], ent)
+
+    def literal(self, node, fr):
+        """np.array(<nested list / tuple display>)"""
+        if isinstance(node, (ast.List, ast.Tuple)):
+            return Arr.stack([self.literal(x, fr) for x in node.elts])
+        return self.ev(node, fr)
+
+    def int_args(self, nodes, what, line):
+        out = []
+        for a in nodes:
+            try:
+                v = ast.literal_eval(a)
+            except (ValueError, SyntaxError):
+                v = None
+            out.append(v)
+        return out
+
+    def call(self, e, fr):
+        f = e.func
+        name = ast.unparse(f)
+        kws = {k.arg: k.value for k in e.keywords}
+        if None in kws:
+            raise Reject('**kwargs (line %d)' % e.lineno)
+        mod, _, base = name.rpartition('.')
+        # ---- numpy plumbing
+        if mod in ('np', 'numpy') and not isinstance(f, ast.Name):
+            if base == 'array' and len(e.args) == 1 and not kws:
+                return self.literal(e.args[0], fr)
+            if base in ('zeros_like', 'ones_like') and len(e.args) == 1 and not kws:
+                x = self.ev(e.args[0], fr)
+                one = '(%d : K)' % (base == 'ones_like')
+                return x.map(lambda v: ('r ' + one, 'C') if v[1] == 'C' else (one, 'R'))
+            if base == 'atleast_3d' and len(e.args) == 1 and not kws:
+                x = self.ev(e.args[0], fr)
+                n = len(x.shape)
+                if n >= 3:
+                    return x
+                if n == 2:
+                    return Arr(x.shape + (1,), {k + (0,): v for k, v in x.ent.items()})
+                if n == 1:
+                    return Arr((1,) + x.shape + (1,), {(0,) + k + (0,): v for k, v in x.ent.items()})
+                return Arr((1, 1, 1), {(0, 0, 0): x.ent[()]})
+            if base == 'transpose' and 1 <= len(e.args) <= 2 and set(kws) <= {'axes'}:
+                x = self.ev(e.args[0], fr)
+                ax = e.args[1] if len(e.args) == 2 else kws.get('axes')
+                perm = list(reversed(range(len(x.shape)))) if ax is None else self.int_args([ax], 'axes', e.lineno)[0]
+                if not isinstance(perm, (list, tuple)) or not all(isinstance(i, int) for i in perm):
+                    raise Reject('transpose axes (line %d)' % e.lineno)
+                return x.transpose([i % len(x.shape) for i in perm])
+            if base in ('stack', 'concatenate') and len(e.args) in (1, 2) and set(kws) <= {'axis'} and isinstance(
+                    e.args[0], (ast.List, ast.Tuple)):
+                axn = e.args[1] if len(e.args) == 2 else kws.get('axis')
+                axis = 0 if axn is None else self.int_args([axn], 'axis', e.lineno)[0]
+                if not isinstance(axis, int):
+                    raise Reject('axis (line %d)' % e.lineno)
+                items = [self.ev(x, fr) for x in e.args[0].elts]
+                return Arr.stack(items, axis) if base == 'stack' else Arr.concat(items, axis)
+            if base == 'block' and len(e.args) == 1 and not kws and isinstance(e.args[0], ast.List):
+                rows = e.args[0].elts
+                if rows and all(isinstance(r_, ast.List) for r_ in rows):       # [[A, B], [C, D]]
+                    return Arr.concat([Arr.concat([self.ev(x, fr) for x in r_.elts], -1) for r_ in rows], -2)
+                if rows and not any(isinstance(r_, ast.List) for r_ in rows):   # [A, B]
+                    return Arr.concat([self.ev(x, fr) for x in rows], -1)
+                raise Reject('np.block nesting (line %d)' % e.lineno)
+            if base == 'einsum' and len(e.args) >= 2 and not kws and isinstance(e.args[0], ast.Constant) and isinstance(
+                    e.args[0].value, str):
+                return self.einsum(e.args[0].value, [self.ev(x, fr) for x in e.args[1:]], e.lineno)
+            if base == 'log' and len(e.args) == 1 and not kws:
+                return self.log(e, fr)
+            raise Reject('numpy call %s (line %d)' % (ast.unparse(e)[:60], e.lineno))
+        if name == 'math.log' and len(e.args) == 1 and not kws:
+            return self.log(e, fr)
+        # ---- methods of arrays
+        if isinstance(f, ast.Attribute) and f.attr == 'transpose' and not kws:
+            x = self.ev(f.value, fr)
+            if not e.args:
+                perm = list(reversed(range(len(x.shape))))
+            else:
+                a = self.int_args(e.args, 'axes', e.lineno)
+                perm = list(a[0]) if len(a) == 1 and isinstance(a[0], (tuple, list)) else a
+            if not all(isinstance(i, int) for i in perm):
+                raise Reject('transpose axes (line %d)' % e.lineno)
+            return x.transpose([i % len(x.shape) for i in perm])
+        # ---- functions of the model
+        if (isinstance(f, ast.Name) or mod == 'adim') and base not in fr['arr']:
+            if base in SUMMARIES:
+                return self.summary(base, e, kws, fr)
+            if base in self.funcs:
+                return self.inline(base, e, kws, fr)
+        if isinstance(f, ast.Name):
+            return Arr.scalar(*fr['fn'].call(e))          # a primitive special function (table) / poch / …
+        raise Reject('call %s (line %d)' % (ast.unparse(e)[:60], e.lineno))
+
+    def log(self, e, fr):
+        x = self.ev(e.args[0], fr)
+        if x.shape != () or x.ent[()][1] != 'R':
+            raise Reject('log of a non-real or non-scalar (line %d)' % e.lineno)
+        return Arr.scalar('klog %s' % paren(x.ent[()][0]), 'R')
+
+    def einsum(self, spec, ops, line):
+        spec = spec.replace(' ', '')
+        if '->' not in spec or '.' in spec:
+            raise Reject('einsum %r (line %d)' % (spec, line))
+        ins, out = spec.split('->')
+        ins = ins.split(',')
+        if len(ins) != len(ops) or not all(x.isalpha() for x in ins + [out or 'a']) or len(set(out)) != len(out):
+            raise Reject('einsum %r (line %d)' % (spec, line))
+        size = {}
+        for letters, x in zip(ins, ops):
+            # a complex scalar is an array over the moments: shape ('K',)
+            if len(letters) != len(x.shape) or len(set(letters)) != len(letters):
+                raise Reject('einsum %r: operand of shape %r (line %d)' % (spec, x.shape, line))
+            for l, s_ in zip(letters, x.shape):
+                if size.setdefault(l, s_) != s_:
+                    raise Reject('einsum %r: sizes of %s differ (line %d)' % (spec, l, line))
+        if any(l not in size for l in out):
+            raise Reject('einsum %r (line %d)' % (spec, line))
+        summed = [l for l in size if l not in out]
+        if any(size[l] == 'K' for l in summed):
+            raise Reject('einsum %r sums over the moments (line %d)' % (spec, line))
+        ent = {}
+        for ko in Arr.keys([size[l] for l in out]):
+            total = None
+            for ks in Arr.keys([size[l] for l in summed]):
+                at = dict(zip(out, ko))
+                at.update(zip(summed, ks))
+                term = None
+                for letters, x in zip(ins, ops):
+                    v = x.ent[tuple(at[l] for l in letters)]
+                    term = v if term is None else sc_bin('*', term, v)
+                total = term if total is None else sc_bin('+', total, term)
+            ent[ko] = total
+        return Arr([size[l] for l in out], ent)
+
+    def arguments(self, params, defaults, e, kws, what):
+        if len(e.args) > len(params) or any(k not in params[len(e.args):] for k in kws):
+            raise Reject('arguments of %s (line %d)' % (what, e.lineno))
+        got = dict(zip(params, e.args))
+        got.update(kws)
+        for p_ in params:
+            if p_ not in got:
+                if p_ not in defaults:
+                    raise Reject('%s: argument %s missing (line %d)' % (what, p_, e.lineno))
+                got[p_] = ast.copy_location(ast.Constant(value=defaults[p_]), e)
+        return got
+
+    def summary(self, name, e, kws, fr):
+        """a call of a translated function: its value, entry by entry, in terms of the Lean definition"""
+        params, defaults, kind = SUMMARIES[name]
+        got = self.arguments(params, defaults, e, kws, name)
+        form = affine(got[params[0]], fr['fn'].sym, self.var)
+        nf = self.ev(got['nf'], fr)
+        if nf.shape != () or nf.ent[()] != ('nf', 'R'):
+            raise Reject('%s: the number of flavours is not m.nf / nf (line %d)' % (name, e.lineno))
+        if kind == 'V4J':
+            if not self.has_J or form != (F(1), F(0)):
+                raise Reject('%s is not called at the conformal moment j its S1 values belong to (line %d)' % (name, e.lineno))
+            call = '%s j nf J' % name
+        else:
+            if form is None or form != self.p_form:
+                raise Reject('%s is not called at the Mellin moment its special-function values belong to (line %d)' % (name, e.lineno))
+            call = '%s %s nf' % (name, self.p_txt)
+            if 'prty' in params:
+                pr = self.ev(got['prty'], fr)
+                if pr.shape != () or pr.ent[()][1] != 'R':
+                    raise Reject('%s: prty (line %d)' % (name, e.lineno))
+                call += ' %s' % paren(pr.ent[()][0])
+            call += ' P'
+        if kind == 'C':
+            return Arr.scalar(call, 'C')
+        if kind == 'M2':       # np.array([[qq, qg], [gq, gg]]) of arrays over the moments: shape (2, 2, K)
+            return Arr((2, 2, 'K'), {(i, k, 0): ('(%s).%s' % (call, fl), 'C') for (i, k), fl in M2_FIELDS.items()})
+        # np.array((Q, G, NSP, NSM)).transpose(): shape (K, 4)
+        return Arr(('K', 4), {(0, i): ('(%s).%s' % (call, fl), 'C') for i, fl in enumerate(V4_FIELDS)})
+
+    def inline(self, name, e, kws, fr):
+        """adim.block / shift1 called from the evaluated code: evaluate its body with the arguments bound"""
+        fn = self.funcs[name]
+        if self.depth > 4:
+            raise Reject('recursion through %s' % name)
+        params = [a.arg for a in fn.args.args]
+        got = self.arguments(params, {}, e, kws, name)
+        sub = Sym(self.var, self.p_form, self.p_txt, self.has_J, self.consts, self.funcs, self.pc, self.sch)
+        sub.depth = self.depth + 1
+        fr2 = sub.frame({}, {})
+        if name == 'block':
+            # block(n, nf): n must be the moment P belongs to; inside, `n` stands for that affine form
+            if self.p_form is None or affine(got[params[0]], fr['fn'].sym, self.var) != self.p_form:
+                raise Reject('block is not called at the Mellin moment its special-function values belong to (line %d)' % e.lineno)
+            nf = self.ev(got[params[1]], fr)
+            if nf.shape != () or nf.ent[()] != ('nf', 'R'):
+                raise Reject('block: the number of flavours is not m.nf (line %d)' % e.lineno)
+            sub.bind(fr2, params[0], Arr.scalar(self.p_txt, 'C'))
+            fr2['fn'].sym[params[0]] = self.p_form
+            sub.bind(fr2, params[1], nf)
+        else:
+            # shift1(m, j, process_class): the caller's own model, moments and process class, passed through
+            for p_, want in ((params[0], self.model), (params[2], self.pcname)):
+                a = got[p_]
+                if not (isinstance(a, ast.Name) and a.id == want and a.id not in fr['arr']):
+                    raise Reject('%s: argument %s is not the caller\'s %s (line %d)' % (name, p_, want, e.lineno))
+            if affine(got[params[1]], fr['fn'].sym, self.var) != (F(1), F(0)) or self.ev(got[params[1]], fr).shape != ('K',):
+                raise Reject('%s: argument %s is not the caller\'s array of moments (line %d)' % (name, params[1], e.lineno))
+            sub.model, sub.pcname = params[0], params[2]
+            sub.p_form = None                     # the Lean shift1 has no record P in scope
+            sub.bind(fr2, params[1], Arr.scalar(self.var, 'C'))
+            fr2['fn'].sym[params[1]] = (F(1), F(0))
+        r_ = sub.run(fn.body, fr2)
+        if r_ is None:
+            raise Reject('%s: falls off the end without return' % name)
+        return r_
+
+
+def eval_return(tr, node):
+    """the array a translated function returns, entry by entry, when it is not built by the literal pattern"""
+    sy = Sym(tr.var, None, None, False, {}, {})
+    fr = dict(arr={}, fn=tr)
+    try:
+        res = sy.ev(node, fr)
+    except Raised:
+        raise Reject('raise')
+    if any(ty != 'C' and not res.shape for _, ty in res.ent.values()):
+        raise Reject('returns a real scalar')
+    return res
 
 
 HEAD = '''/-
@@ -360,62 +949,123 @@ def V4.add (a b : V4) : V4 := { Q := a.Q + b.Q, G := a.G + b.G, NSP := a.NSP + b
 
 '''
 
-TAIL = '''
-/-! ### hand-written: adim.block, c1dvcs.shift1, c1dvcs.C1 -/
-
-/-- adim.block(n, nf)[k] for one n: (LO 4x4, NLO 4x4), rows/columns (Q, G, NS+, NS-) -/
-def block (n : C) (nf : K) (P : SF) : List (List C) × List (List C) :=
-  let lo := singlet_LO n nf 1 P
-  let ns := non_singlet_LO n nf 1 P
-  let nlo := singlet_NLO n nf 1 P
-  let nsp := non_singlet_NLO n nf 1 P
-  let nsm := non_singlet_NLO n nf (-1) P
-  let z : C := r 0
-  ([[lo.qq, lo.qg, z, z], [lo.gq, lo.gg, z, z], [z, z, ns, z], [z, z, z, ns]],
-   [[nlo.qq, nlo.qg, z, z], [nlo.gq, nlo.gg, z, z], [z, z, nsp, z], [z, z, z, nsm]])
+TYPES = """
+/-! ### adim.block, c1dvcs.shift1, c1dvcs.C1: evaluated symbolically from the source (tools/gen_adim.py, class Sym) -/
 
 inductive Proc where
   | DIS | DVCS | other
 inductive Scheme where
   | msbar | csbar | other
 
-/-- c1dvcs.shift1(m, j, process_class) with LRF2 = log(m.rf2); none = `raise Exception` -/
-def shift1 (rf2 : K) (pc : Proc) (J : SJ) : Option C :=
-  let LRF2 := klog rf2
-  match pc with
-  | .DIS => some (r (-LRF2))
-  | .DVCS => some (J.S1j32 - J.S1j2 + r (2 * klog 2) - r LRF2)
-  | .other => none
+"""
 
-/-- c1dvcs.C1(m, j, process_class): m.rf2, m.nf, m.scheme are what it reads.
-    P = special values at n = j+1 (block(j+1), c1_F2(j+1), c1_F1(j+1)); J = S1 at j, j+1, j+2, j+3/2.
-    einsum('k,i,kij->kj', s1, c0, block[:,0]) with c0 = (1,0,1,1) picks (qq0, qg0, ns0, ns0).
-    none = `raise Exception` (unknown process in shift1, or unknown scheme for a non-DIS process). -/
-def C1 (rf2 nf : K) (sch : Scheme) (pc : Proc) (j : C) (P : SF) (J : SJ) : Option V4 :=
-  let n := j + r 1
-  let lo := singlet_LO n nf 1 P
-  let ns := non_singlet_LO n nf 1 P
-  let row : V4 := { Q := lo.qq, G := lo.qg, NSP := ns, NSM := ns }
-  let isDIS := match pc with | .DIS => true | _ => false
-  let isCS := match sch with | .csbar => true | _ => false
-  let isMS := match sch with | .msbar => true | _ => false
-  let shift : Option V4 :=
-    if isDIS || isCS then
-      (shift1 rf2 pc J).map fun s =>
-        { Q := s * row.Q / r 2, G := s * row.G / r 2, NSP := s * row.NSP / r 2, NSM := s * row.NSM / r 2 }
-    else if isMS then
-      let l := klog rf2
-      some { Q := -(row.Q * r l / r 2), G := -(row.G * r l / r 2),
-             NSP := -(row.NSP * r l / r 2), NSM := -(row.NSM * r l / r 2) }
-    else none
-  let c1 : V4 :=
-    if isDIS then c1_F2 n nf P
-    else if isCS then c1_F1 n nf P
-    else c1_V j nf J
-  shift.map fun s => V4.add c1 s
-
+TAIL = """
 end Adim
-'''
+"""
+
+LEAN_PROC = {'DIS': '.DIS', 'DVCS': '.DVCS', None: '.other'}
+LEAN_SCH = {'msbar': '.msbar', 'csbar': '.csbar', None: '.other'}
+
+
+def free_names(txt):
+    import re
+    return set(re.findall(r"(?<![\w.])([A-Za-z_]\w*)", txt))
+
+
+def gen_block(atree, consts):
+    """adim.block(n, nf) at one moment: the (LO, NLO) pair of 4x4 matrices, entry by entry"""
+    fn = find_func(atree, 'block')
+    params = [a.arg for a in fn.args.args]
+    if len(params) != 2:
+        raise Reject('adim.block: parameters %s' % params)
+    sy = Sym('n', (F(1), F(0)), 'n', False, consts, {})
+    fr = sy.frame({}, {})
+    sy.bind(fr, params[0], Arr.scalar('n', 'C'))
+    fr['fn'].sym[params[0]] = (F(1), F(0))
+    sy.bind(fr, params[1], Arr.scalar('nf', 'R'))
+    try:
+        res = sy.run(fn.body, fr)
+    except Raised:
+        raise Reject('adim.block raises')
+    if res is None or res.shape != ('K', 2, 4, 4):
+        raise Reject('adim.block: result of shape %r, expected (moments, 2, 4, 4)' % (None if res is None else res.shape,))
+    out = ['/-- adim.block(n, nf)[k] for one n (line %d): (LO 4x4, NLO 4x4), rows/columns (Q, G, NS+, NS-) -/' % fn.lineno,
+           'def block (n : C) (nf : K) (P : SF) : List (List C) × List (List C) :=']
+    mats = []
+    for p_ in range(2):
+        rows = []
+        for i in range(4):
+            cells = []
+            for k in range(4):
+                t, ty = res.ent[(0, p_, i, k)]
+                cells.append(t if ty == 'C' else 'r %s' % paren(t))
+            rows.append('[' + ', '.join(cells) + ']')
+        mats.append('[' + ',\n    '.join(rows) + ']')
+    out.append('  (' + ',\n   '.join(mats) + ')')
+    return '\n'.join(out) + '\n\n'
+
+
+def gen_shift1(dtree, consts):
+    fn = find_func(dtree, 'shift1')
+    params = [a.arg for a in fn.args.args]
+    if len(params) != 3:
+        raise Reject('c1dvcs.shift1: parameters %s' % params)
+    out = ['/-- c1dvcs.shift1(m, j, process_class) (line %d), rf2 = m.rf2; none = `raise Exception` -/' % fn.lineno,
+           'def shift1 (rf2 : K) (pc : Proc) (J : SJ) : Option C :=', '  match pc with']
+    for pc in PROCS + (None,):
+        sy = Sym('j', None, None, True, consts, {}, pc=pc, sch=None, model=params[0], pcname=params[2])
+        fr = sy.frame({}, {})
+        sy.bind(fr, params[1], Arr.scalar('j', 'C'))
+        fr['fn'].sym[params[1]] = (F(1), F(0))
+        try:
+            res = sy.run(fn.body, fr)
+            if res is None:
+                raise Reject('c1dvcs.shift1 falls off the end without return')
+            if res.shape == ():
+                raise Reject('c1dvcs.shift1 returns a real scalar, not an array over the moments')
+            if res.shape != ('K',):
+                raise Reject('c1dvcs.shift1: result of shape %r' % (res.shape,))
+            t, ty = res.ent[(0,)]
+            bad = free_names(t) & {'j', 'n', 'nf', 'P'}
+            if bad:
+                raise Reject('c1dvcs.shift1 uses %s directly (the model has only S1 around j and rf2)' % sorted(bad))
+            out.append('  | %s => some (%s)' % (LEAN_PROC[pc], t))
+        except Raised:
+            out.append('  | %s => none' % LEAN_PROC[pc])
+    return '\n'.join(out) + '\n\n'
+
+
+def gen_C1(dtree, atree, consts):
+    fn = find_func(dtree, 'C1')
+    params = [a.arg for a in fn.args.args]
+    if len(params) != 3:
+        raise Reject('c1dvcs.C1: parameters %s' % params)
+    funcs = {'block': find_func(atree, 'block'), 'shift1': find_func(dtree, 'shift1')}
+    out = ['/-- c1dvcs.C1(m, j, process_class) (line %d): m.rf2, m.nf, m.scheme are what it reads.' % fn.lineno,
+           '    P = special values at n = j+1 (block(j+1), c1_F2(j+1), c1_F1(j+1)); J = S1 at j, j+1, j+2, j+3/2.',
+           '    One arm per (scheme, process class); none = `raise Exception`. -/',
+           'def C1 (rf2 nf : K) (sch : Scheme) (pc : Proc) (j : C) (P : SF) (J : SJ) : Option V4 :=',
+           '  let n := j + r 1', '  match sch, pc with']
+    for sch in SCHEMES + (None,):
+        for pc in PROCS + (None,):
+            sy = Sym('j', (F(1), F(1)), 'n', True, consts, funcs, pc=pc, sch=sch, model=params[0], pcname=params[2])
+            fr = sy.frame({}, {})
+            sy.bind(fr, params[1], Arr.scalar('j', 'C'))
+            fr['fn'].sym[params[1]] = (F(1), F(0))
+            try:
+                res = sy.run(fn.body, fr)
+                if res is None:
+                    raise Reject('c1dvcs.C1 falls off the end without return')
+                if res.shape != ('K', 4):
+                    raise Reject('c1dvcs.C1: result of shape %r, expected (moments, 4)' % (res.shape,))
+                cells = []
+                for i, fl in enumerate(V4_FIELDS):
+                    t, ty = res.ent[(0, i)]
+                    cells.append('%s := %s' % (fl, t if ty == 'C' else 'r %s' % paren(t)))
+                out.append('  | %s, %s => some\n      { %s }' % (LEAN_SCH[sch], LEAN_PROC[pc], ',\n        '.join(cells)))
+            except Raised:
+                out.append('  | %s, %s => none' % (LEAN_SCH[sch], LEAN_PROC[pc]))
+    return '\n'.join(out) + '\n'
 
 
 def generate():
@@ -444,7 +1094,7 @@ def generate():
     out.append('\n/-! ### special.py: S2_prime, S3_prime at z = n/2 (every call site passes n/2), S2_tilde -/\n')
     for name in ('S2_prime', 'S3_prime'):
         fn = find_func(stree, name)
-        t = Fn({'prty': ('prty', 'R')}, CALLS_N, sym={'z': 'n / 2'})
+        t = Fn({'prty': ('prty', 'R')}, CALLS_N, sym={'z': (F(1, 2), F(0))})
         # z itself must not be used outside the primitive calls
         out.append(translate_function(fn, ['z', 'prty'], t, 'C', name + '_half', '(prty : K) (P : SF)', 'C',
                                       'special'))
@@ -464,16 +1114,6 @@ def generate():
         fn = find_func(atree, name)
         out.append(translate_function(fn, ['n', 'nf', 'prty'], Fn(base, CALLS_N), kind, name, sig, ty, 'adim'))
         out.append('\n')
-    # adim.block is hand-written: check the shape it relies on
-    blk = ast.unparse(find_func(atree, 'block'))
-    for needle in ('singlet_LO(n, nf)', 'non_singlet_LO(n, nf)', 'singlet_NLO(n, nf)',
-                   'non_singlet_NLO(n, nf, prty=1)', 'non_singlet_NLO(n, nf, prty=-1)',
-                   'np.block([[lo_SI, zero_SI], [zero_SI, lo_NS_block]])',
-                   'np.block([[nlo_plus_NS, zero_NS], [zero_NS, nlo_minus_NS]])',
-                   'np.stack([lo_block, nlo_block], axis=1)'):
-        if needle not in blk:
-            raise Reject('adim.block changed shape: %r not found' % needle)
-
     # ---- c1dvcs.py
     dtree = ast.parse(open(os.path.join(SRC, 'c1dvcs.py')).read())
     out.append('/-! ### c1dvcs.py -/\n')
@@ -491,25 +1131,12 @@ def generate():
     basej = dict(cenv)
     basej.update({'j': ('j', 'C'), 'nf': ('nf', 'R')})
     fn = find_func(dtree, 'c1_V')
-    out.append(translate_function(fn, ['j', 'nf'], Fn(basej, CALLS_J), 'V4', 'c1_V', '(j : C) (nf : K) (J : SJ)',
+    out.append(translate_function(fn, ['j', 'nf'], Fn(basej, CALLS_J, var='j'), 'V4', 'c1_V', '(j : C) (nf : K) (J : SJ)',
                                   'V4', 'c1dvcs'))
-    # shift1 / C1 are hand-written: check the pieces they rely on
-    s1 = ast.unparse(find_func(dtree, 'shift1'))
-    for needle in ("LRF2 = math.log(m.rf2)", "s1 = -LRF2 * np.ones_like(j)",
-                   "s1 = S1(j + 3 / 2) - S1(j + 2) + 2 * math.log(2) - LRF2",
-                   "if process_class == 'DIS':", "elif process_class == 'DVCS':"):
-        if needle not in s1:
-            raise Reject('c1dvcs.shift1 changed shape: %r not found' % needle)
-    c1 = ast.unparse(find_func(dtree, 'C1'))
-    for needle in ("c0 = np.array([1, 0, 1, 1])",
-                   "if process_class == 'DIS' or m.scheme == 'csbar':",
-                   "shift = np.einsum('k,i,kij->kj', shift1(m, j, process_class), c0, adim.block(j + 1, m.nf)[:, 0, :, :]) / 2",
-                   "elif m.scheme == 'msbar':",
-                   "shift = -np.einsum('i,kij->kj', c0, adim.block(j + 1, m.nf)[:, 0, :, :]) * math.log(m.rf2) / 2",
-                   "c1 = c1_F2(j + 1, m.nf)", "c1 = c1_F1(j + 1, m.nf)", "c1 = c1_V(j, m.nf)",
-                   "return c1 + shift"):
-        if needle not in c1:
-            raise Reject('c1dvcs.C1 changed shape: %r not found' % needle)
+    out.append(TYPES)
+    out.append(gen_block(atree, cenv))
+    out.append(gen_shift1(dtree, cenv))
+    out.append(gen_C1(dtree, atree, cenv))
     out.append(TAIL)
     return ''.join(out)
 
